@@ -30,7 +30,9 @@ StreamsQuick == <<
   Clean(<<P9, P7, P8>>),
   Clean(<<P8, P13c>>),
   Mk(<<P7, P9>>, FALSE, Gar \o P7 \o Gar \o P9),
-  Mk(<<P8>>, FALSE, P8 \o SubSeq(Gar, 1, 2)) >>
+  Mk(<<P8>>, FALSE, P8 \o SubSeq(Gar, 1, 2)),
+  \* a run of filler longer than a header in front of a packet
+  Mk(<<P7, P8>>, FALSE, P7 \o <<255, 255, 255, 255, 255, 255, 255>> \o P8) >>
 
 StreamsThorough == StreamsQuick \o <<
   Clean(<<P7>>), Clean(<<P8>>), Clean(<<P9>>), Clean(<<P13c>>),
